@@ -96,6 +96,8 @@ var c13Pools = map[string][]string{
 		`{"a":"\ud800"}`, `{"":""}`, `{"a":true,"b":false,"c":null,"level":"x","msg":{"k":"v"},"ts":[1]}`, `{"a":1.5,"b":"s","c":{"d":{"e":2}},"x":{"y":"z"}}`, ` {"a" : 1 } `, `{"a":1}trailing`, `nul`, `1`, `-`, `{"a":"` + c13LongStr(200, "q") + `"}`,
 		`{"a":{"b":{"c":"deep"}},"a":{"b":1}}`, `{"a":[{"b":1}],"c":{"d":[]}}`, `{"a.b":1,"k.dot":2}`, `{"a":"x","b":"\xff"}`, strings.Repeat(`{"a":`, 60) + "1" + strings.Repeat("}", 60), strings.Repeat("[", 200),
 		`{"level":"info","message":"m","time":"2023-10-30T13:35:33Z"}`, `{"a":0.1e-2,"b":-1E+2}`, `{"a":01}`, `{"a":1.}`, `{"a":.5}`, "{\"a\":\"\t\"}", `{"a":"\x"}`,
+		// protobuf wire bytes for message M { string a = 1; int32 b = 2; M c = 3; repeated string d = 4; } (decode, decoder protobuf)
+		"\x0a\x01x", "\x0a\x05ab", "\x10\x96\x01", "\x1a\x03\x0a\x01y", "\x22\x01p\x22\x01q", "\x0a\x01x\x10\x01\x1a\x05\x0a\x01y\x10\x02", "\x08", "\xff\xff\xff\xff\xff\xff\xff\xff\xff\xff\x01",
 	},
 	"syslog3164": {"<34>Oct 11 22:14:15 mymachine su: 'su root' failed for lonvick on /dev/pts/8", "<34>Oct 11 22:14:15 host app[10]", "<34>Oct 11 22:14:15 host app[10]: msg", "<34>", "<>", "<999>Oct 11 22:14:15 h a: m", "<34>Oct  1 22:14:15 h a: m", "Oct 11 22:14:15 h a: m", "<34>Oct 11 22:14:15", "<34>Oct 11 22:14:15 h", "<34>Oct 11 22:14:15 h a[", "<34>Oct 11 22:14:15 h a[1", "<3"},
 	"syslog5424": {`<165>1 2003-10-11T22:14:15.003Z mymachine.example.com myproc - ID47 [exampleSDID iut="3" eventSource="Application" eventID="1011"] An application event`, "<34>1 - - - - - [ab ]", `<34>1 - - - - - [ab "`, "<34>1 - - - - - -", "<34>1 - - - - - - msg", "<34>1", "<34>1 2003-10-11T22:14:15.003Z h a p m [x y=\"\\\"\"] m", `<34>1 - - - - - [a b="c"][d e="f"]`, `<34>1 - - - - - [a b="c`, "<34>1 - - - - - [", "<34>1 - - - - - []", `<34>1 - - - - - [a b=]`, "<34>0 - - - - - -"},
@@ -801,6 +803,50 @@ func genC13(w *bufio.Writer, rng *hx.Rng, tier string) {
 			for j := 0; j < nSeqPerCfg; j++ {
 				c13Line(w, c, c13RandomSeq(rng, c))
 			}
+		}
+	}
+	// end to end through the real processor: a few configurations per plugin, metric labels taken
+	// from event fields (countEvent), real Propagate / Spawn / stream time-outs
+	nPipe := 8
+	if full {
+		nPipe = 120
+	}
+	for _, p := range c13Plugins {
+		sys := c13Systematic(p)
+		for i := 0; i < nPipe; i++ {
+			var c c13Cfg
+			if i < 3 || rng.Chance(1, 3) {
+				c = sys[(i+rng.Intn(len(sys)))%len(sys)]
+			} else {
+				c = c13RandomCfg(p, rng)
+			}
+			if !c13Valid(c) {
+				continue
+			}
+			// metric label names must be valid and distinct (the registry refuses others at start-up);
+			// their values come from the events
+			var labels []string
+			names := []string{"level", "a", "b", "msg", "c", "log"}
+			first := rng.Intn(len(names))
+			for k := rng.Range(0, 2); k > 0; k-- {
+				labels = append(labels, names[(first+k)%len(names)])
+			}
+			var evs []c13EvTok
+			for _, e := range c13RandomSeq(rng, c) {
+				if e != "T" {
+					evs = append(evs, e)
+				}
+			}
+			fmt.Fprintf(w, "c13.pipe %s %s %s %d", c.plugin, hx.Enc(c.jsonBytes()), c.ps.tok(), len(labels))
+			for _, l := range labels {
+				fmt.Fprintf(w, " %s", hx.Enc([]byte(l)))
+			}
+			fmt.Fprintf(w, " %d", len(evs))
+			for _, e := range evs {
+				w.WriteByte(' ')
+				w.WriteString(string(e))
+			}
+			w.WriteByte('\n')
 		}
 	}
 	genC13Cores(w, rng, tier)
